@@ -26,6 +26,34 @@ var dirU = []string{"", "a", "b", "a/b", "p", "q", "foo", "foobar", "foo/a", "p/
 var pkgU = []string{"a", "b", "a.b", "p", "q", "foo.a", "a_test", "b.a", "foobar", "p.a"}
 var baseU = []string{"x.rego", "x.rego", "x.rego", "y.rego", "x_test.rego", "x_1.rego", "x_1_test.rego"}
 
+// genChainCollision: a file moves AWAY from a path P while two (or three) other files both want P, possibly with a
+// further link of the chain behind it and a bystander; which of them the fixer handles first is up to the order of the
+// linter's violations, so the caller runs the workspace several times.
+func genChainCollision(r *hutil.Rng, n int) *WS {
+	ws := &WS{Name: "chaincoll" + strconv.Itoa(n), Policy: hutil.Choice(r, []string{"error", "rename"}), Args: []string{""}, AbsArgs: r.Bool(),
+		RegalDirs: []string{""}}
+	dirs := []string{"a", "b", "p", "q", "foo"}
+	hutil.Shuffle(r, dirs)
+	dp, dq, d1, d2, d3 := dirs[0], dirs[1], dirs[2], dirs[3], dirs[4]
+	base := hutil.Choice(r, []string{"x.rego", "y.rego", "x_test.rego", "x_1.rego"})
+	ws.Files = []WFile{
+		{Path: dp + "/" + base, Pkg: dq, ID: 1},                   // vacates P = dp/base
+		{Path: d1 + "/" + base, Pkg: dp, ID: 2, Dirty: r.Below(4) == 0}, // wants P
+		{Path: d2 + "/" + base, Pkg: dp, ID: 3},                   // wants P too
+	}
+	switch r.Below(4) {
+	case 0: // a third contender
+		ws.Files = append(ws.Files, WFile{Path: d3 + "/" + base, Pkg: dp, ID: 4})
+	case 1: // the chain goes on: the target of the vacating file is taken by a file that stays
+		ws.Files = append(ws.Files, WFile{Path: dq + "/" + base, Pkg: dq, ID: 4})
+	case 2: // ... or by one that moves away as well
+		ws.Files = append(ws.Files, WFile{Path: dq + "/" + base, Pkg: d3, ID: 4})
+	}
+	hutil.Shuffle(r, ws.Files)
+	addBystanders(r, ws)
+	return ws
+}
+
 func genWS(r *hutil.Rng, n int) *WS {
 	ws := &WS{Name: "rand" + strconv.Itoa(n), Policy: hutil.Choice(r, []string{"error", "rename", "rename"}), Args: []string{""}, AbsArgs: r.Bool()}
 	nf := 1 + r.Below(6)
@@ -84,6 +112,7 @@ func genWS(r *hutil.Rng, n int) *WS {
 	if r.Below(6) == 0 {
 		ws.Others = append(ws.Others, filepath.Join(hutil.Choice(r, ds), "README.md"))
 	}
+	addBystanders(r, ws)
 	switch r.Below(6) {
 	case 0: // only a sub-directory is given
 		ws.Args = []string{hutil.Choice(r, ds)}
@@ -133,12 +162,15 @@ func genWS(r *hutil.Rng, n int) *WS {
 	}
 	var others []string
 	for _, o := range ws.Others {
-		if filepath.Base(o) == "README.md" {
-			addDir(filepath.Dir(o))
-		}
+		addDir(filepath.Dir(o))
 	}
+	for l := range ws.Symlinks {
+		addDir(filepath.Dir(l))
+	}
+	seenOther := map[string]bool{}
 	for _, o := range ws.Others {
-		bad := occupied(o)
+		bad := occupied(o) || seenOther[o]
+		seenOther[o] = true
 		for _, d := range dirsNeeded {
 			bad = bad || d == o
 		}
@@ -148,6 +180,49 @@ func genWS(r *hutil.Rng, n int) *WS {
 	}
 	ws.Others = others
 	return ws
+}
+
+// addBystanders puts entries that the fix must neither touch nor count as "nothing" next to, above and below the
+// files that may move: hidden files, non-rego files, sub-directories (empty, with content, hidden) and symbolic links.
+// Their names are disjoint from the directory / package / rego names of the generator.
+func addBystanders(r *hutil.Rng, ws *WS) {
+	if len(ws.Files) == 0 || r.Below(5) < 2 {
+		return
+	}
+	n := 1 + r.Below(3)
+	for i := 0; i < n; i++ {
+		f := hutil.Choice(r, ws.Files)
+		d := filepath.Dir(f.Path)
+		if d != "." && r.Below(4) == 0 {
+			d = filepath.Dir(d) // one level up: the parent of the directory that may become empty
+		}
+		in := func(name string) string { return filepath.Join(d, name) }
+		switch r.Below(9) {
+		case 0, 1:
+			ws.Others = append(ws.Others, in(hutil.Choice(r, []string{".gitkeep", ".DS_Store", ".gitignore"})))
+		case 2:
+			ws.Others = append(ws.Others, in(hutil.Choice(r, []string{"data.json", "README", "notes.txt"})))
+		case 3:
+			ws.EmptyDirs = append(ws.EmptyDirs, in(hutil.Choice(r, []string{"sub", ".cache"})))
+		case 4:
+			ws.Others = append(ws.Others, in(hutil.Choice(r, []string{"sub/data.json", ".cache/.keep", "sub/.gitkeep", ".cache/blob"})))
+		case 5, 6:
+			if ws.Symlinks == nil {
+				ws.Symlinks = map[string]string{}
+			}
+			// links to files: to the rego file next to it (dangling once that file has moved), to a file that does
+			// not exist, out of the directory
+			ws.Symlinks[in(hutil.Choice(r, []string{"latest", ".current", "link.txt"}))] =
+				hutil.Choice(r, []string{filepath.Base(f.Path), "data.json", "../" + filepath.Base(f.Path)})
+		case 7:
+			if ws.Symlinks == nil {
+				ws.Symlinks = map[string]string{}
+			}
+			ws.Symlinks[in(hutil.Choice(r, []string{"up", ".here"}))] = hutil.Choice(r, []string{"..", "."}) // links to directories
+		case 8: // a hidden file below AND one next to the file
+			ws.Others = append(ws.Others, in(".gitkeep"), in("sub/.gitkeep"))
+		}
+	}
 }
 
 func main() {
@@ -181,12 +256,18 @@ func main() {
 					panic(fmt.Sprintf("%s: %v", e, err))
 				}
 				for i := range list {
-					// every corpus workspace runs under both policies, and once as a dry run
+					// every corpus workspace runs under both policies, and once as a dry run; workspaces whose outcome depends
+					// on the order of the linter's violations ("repeat": n) run n times per policy
 					for _, pol := range []string{"error", "rename"} {
-						w := list[i]
-						w.Policy = pol
-						w.Name = list[i].Name + "/" + pol
-						cases = append(cases, &w)
+						for k := 0; k < max(1, list[i].Repeat); k++ {
+							w := list[i]
+							w.Policy = pol
+							w.Name = list[i].Name + "/" + pol
+							if k > 0 {
+								w.Name += "#" + strconv.Itoa(k)
+							}
+							cases = append(cases, &w)
+						}
 					}
 					w := list[i]
 					w.Policy, w.DryRun, w.Name = "rename", true, list[i].Name+"/dry"
@@ -195,12 +276,22 @@ func main() {
 			}
 		}
 		rng := hutil.NewRng(hutil.SeedFromEnv())
-		n := 70
+		n, nshape, repeat := 64, 4, 5
 		if tier == "thorough" {
-			n = 1500
+			n, nshape, repeat = 1500, 60, 8
 		}
 		for i := 0; i < n; i++ {
 			cases = append(cases, genWS(rng, i))
+		}
+		// chain-plus-collision shapes: the outcome depends on the order in which the linter reports the violations,
+		// so every such workspace (and the corpus ones marked "repeat") is run several times
+		for i := 0; i < nshape; i++ {
+			w := genChainCollision(rng, i)
+			for k := 0; k < repeat; k++ {
+				c := *w
+				c.Name = w.Name + "#" + strconv.Itoa(k)
+				cases = append(cases, &c)
+			}
 		}
 	}
 	results := make([]Result, len(cases))
